@@ -588,7 +588,7 @@ func (c *c19) Summary(w *sim.World) (string, []string) {
 
 var C19 = register(&HistProp{ID: "C19",
 	Genesis: func(t *rapid.T) *sim.GenSpec {
-		return sim.DrawGenesis(t, sim.GenOpts{ManyEntries: true, UsedInGen: true, MaxAtt: 5, ManyUsed: true, AbsentOpt: true, CaseLimits: true})
+		return sim.DrawGenesis(t, sim.GenOpts{ManyEntries: true, UsedInGen: true, MaxAtt: 5, ManyUsed: true, AbsentOpt: true, CaseLimits: true, ManyRegistry: true})
 	},
 	Next: func(g *sim.G, i int) *sim.Op {
 		return Mix{Admin: 14, Recv: 3, Send: 1, Dep: 1, DepValid: 80, RecvBroken: 15, AdminHolder: 90, Rollback: 6, AttProbe: 3, Restart: 2,
